@@ -155,7 +155,8 @@ def execute(st):
                 # M -> 0 continuity: compare with the raw operator at x (= xi up to O(M^2))
                 if st["M"] <= 1e-4:
                     d0 = np.abs(val - raw_at_xi[kind])
-                    gall = max(float(np.max(np.abs(a))) for a in raw_at_xi.values())
+                    # size of the uncorrected operators anywhere on the grid (the O(M^2) terms are integrals over them)
+                    gall = max([float(np.max(np.abs(a))) for a in raw_at_xi.values()] + [float(np.max(np.abs(t))) for ts in raw_nodes.values() for t in ts])
                     lim = (1e-15 if st["M"] == 0.0 else 1e-6) * (np.abs(val) + gmax + gall)
                     if np.any(d0 > lim):
                         viol.append(_v(st, "continuity", mode, f"{name} TMC mode {mode} M={st['M']}: corrected operator differs from the uncorrected one by {d0.max():.3e} at x={x}"))
